@@ -215,8 +215,9 @@ func (c *e1ctx) discharge(s *e1.Site) (string, bool) {
 				}
 			}
 		}
-		// sync.Map values of a map this package alone fills with one type: nodeCache
-		// (handled in the table)
+		if r, ok := c.ruleSyncMap(s); ok {
+			return r, true
+		}
 	case "P3":
 		if r, ok := c.ruleRegex(s); ok {
 			return r, true
@@ -235,6 +236,9 @@ func (c *e1ctx) discharge(s *e1.Site) (string, bool) {
 		if r, ok := c.ruleWriterPanic(s); ok {
 			return r, true
 		}
+		if r, ok := c.ruleArgConst(s); ok {
+			return r, true
+		}
 	}
 	return "", false
 }
@@ -243,8 +247,24 @@ func (c *e1ctx) discharge(s *e1.Site) (string, bool) {
 // package-level regexp with a foldable constant pattern.
 func submatchOf(v ssa.Value) (call *ssa.Call, pattern string, ok bool) {
 	c, isCall := v.(*ssa.Call)
-	if !isCall || !su.CalleeIs(&c.Call, "regexp", "FindStringSubmatch") {
+	if !isCall {
 		return nil, "", false
+	}
+	if !su.CalleeIs(&c.Call, "regexp", "FindStringSubmatch") {
+		// a one-block helper that returns FindStringSubmatch of a package-level regexp
+		cal := c.Call.StaticCallee()
+		if cal == nil || len(cal.Blocks) != 1 {
+			return nil, "", false
+		}
+		ret, isRet := cal.Blocks[0].Instrs[len(cal.Blocks[0].Instrs)-1].(*ssa.Return)
+		if !isRet || len(ret.Results) != 1 {
+			return nil, "", false
+		}
+		_, pat, ok := submatchOf(ret.Results[0])
+		if !ok {
+			return nil, "", false
+		}
+		return c, pat, true
 	}
 	g := su.GlobalLoaded(c.Call.Args[0])
 	if g == nil {
@@ -357,6 +377,9 @@ func (c *e1ctx) ruleRegex(s *e1.Site) (string, bool) {
 		}
 		if lenGuarded(call, s.Instr) {
 			return fmt.Sprintf("R-regex: group %d of a constant pattern with %d groups, used only after the no-match (len==0) exit", k, n), true
+		}
+		if alwaysMatches(pat) {
+			return fmt.Sprintf("R-regex: group %d of a constant pattern with %d groups that matches every string (nullable, no assertions)", k, n), true
 		}
 	case *ssa.Slice:
 		// group[k][lo : len(group[k])-h] under group[k] != ""
@@ -550,6 +573,31 @@ func nilGuarded(errV ssa.Value, ins ssa.Instruction) bool {
 	for _, ref := range *errV.Referrers() {
 		if phi, ok := ref.(*ssa.Phi); ok {
 			derived[phi] = true
+		}
+		// errV stored into a local (an address-taken named result) and re-loaded later in the same block with no store in between
+		if st, ok := ref.(*ssa.Store); ok && st.Val == errV {
+			if al, ok := st.Addr.(*ssa.Alloc); ok {
+				blk := st.Block()
+				after := false
+				for _, ins := range blk.Instrs {
+					if ins == ssa.Instruction(st) {
+						after = true
+						continue
+					}
+					if !after {
+						continue
+					}
+					if s2, ok := ins.(*ssa.Store); ok && s2.Addr == ssa.Value(al) {
+						break
+					}
+					if _, isCall := ins.(ssa.CallInstruction); isCall {
+						break // a call may write through the escaped address
+					}
+					if ld, ok := ins.(*ssa.UnOp); ok && ld.Op == token.MUL && ld.X == ssa.Value(al) {
+						derived[ld] = true
+					}
+				}
+			}
 		}
 	}
 	for _, b := range fn.Blocks {
@@ -762,9 +810,21 @@ func (c *e1ctx) ruleWriterPanic(s *e1.Site) (string, bool) {
 	} else if cal := call.Call.StaticCallee(); cal != nil {
 		name = cal.Name()
 	}
+	isWriter := func(t types.Type) bool {
+		n := load.NamedOf(t)
+		return n != nil && n.Obj().Pkg() != nil && n.Obj().Pkg().Path() == "io" && n.Obj().Name() == "Writer"
+	}
+	writes := false
 	switch name {
 	case "Write", "WriteString", "WriteHTMLTo", "Fprintf", "Fprint":
-		// must be under err != nil
+		writes = true
+	}
+	for _, a := range call.Call.Args {
+		if isWriter(a.Type()) {
+			writes = true
+		}
+	}
+	if writes && ex.Index == call.Type().(*types.Tuple).Len()-1 {
 		return "R-wpanic: panics only with the error of a failed write to the caller's io.Writer (C19's fault model)", true
 	}
 	return "", false
@@ -858,4 +918,216 @@ func reachSet(p *load.Prog, entries []*ssa.Function) []*ssa.Function {
 		out = append(out, f)
 	}
 	return out
+}
+
+// alwaysMatches: the pattern can match the empty string and contains no
+// position assertion, so FindStringSubmatch never returns nil.
+func alwaysMatches(pat string) bool {
+	re, err := syntax.Parse(pat, syntax.Perl)
+	if err != nil {
+		return false
+	}
+	var hasAssert func(r *syntax.Regexp) bool
+	hasAssert = func(r *syntax.Regexp) bool {
+		switch r.Op {
+		case syntax.OpBeginLine, syntax.OpEndLine, syntax.OpBeginText, syntax.OpEndText, syntax.OpWordBoundary, syntax.OpNoWordBoundary, syntax.OpNoMatch:
+			return true
+		}
+		for _, s := range r.Sub {
+			if hasAssert(s) {
+				return true
+			}
+		}
+		return false
+	}
+	return minLen(re) == 0 && !hasAssert(re)
+}
+
+// ruleSyncMap: assertion on a value loaded from a sync.Map that the
+// repository only ever fills with values of the asserted type.
+func (c *e1ctx) ruleSyncMap(s *e1.Site) (string, bool) {
+	ta := s.Instr.(*ssa.TypeAssert)
+	id, isKey := c.syncMapValue(ta.X, 0)
+	if id == "" {
+		return "", false
+	}
+	n := 0
+	for _, fn := range c.p.Repo {
+		for _, ci := range su.Calls(fn) {
+			cc := ci.Common()
+			if !(su.CalleeIs(cc, "sync", "Store") || su.CalleeIs(cc, "sync", "LoadOrStore")) {
+				continue
+			}
+			if c.syncMapID(cc.Args[0], 0) != id {
+				continue
+			}
+			n++
+			arg := cc.Args[2]
+			if isKey {
+				arg = cc.Args[1]
+			}
+			var stored types.Type
+			switch mi := arg.(type) {
+			case *ssa.MakeInterface:
+				stored = mi.X.Type()
+			case *ssa.ChangeInterface:
+				stored = mi.X.Type()
+			case *ssa.Const:
+				if mi.Value == nil && !isKey {
+					continue // nil value stored: only keys are asserted on such maps
+				}
+				return "", false
+			default:
+				return "", false
+			}
+			if !types.Identical(stored, ta.AssertedType) {
+				if iface, isIface := ta.AssertedType.Underlying().(*types.Interface); !isIface || !types.Implements(stored, iface) {
+					return "", false
+				}
+			}
+		}
+	}
+	if n == 0 {
+		return "", false
+	}
+	what := "values"
+	if isKey {
+		what = "keys"
+	}
+	return fmt.Sprintf("R-syncmap: all %d stores into %s put %s of type %s", n, id, what, typeStrP(ta.AssertedType)), true
+}
+
+func typeStrP(t types.Type) string {
+	return strings.ReplaceAll(t.String(), load.Module, "gedcom")
+}
+
+// syncMapID names a *sync.Map value: a package variable, a struct field, or
+// the maps stored inside another identified map.
+func (c *e1ctx) syncMapID(v ssa.Value, depth int) string {
+	if depth > 4 {
+		return ""
+	}
+	switch x := v.(type) {
+	case *ssa.UnOp:
+		if g, ok := x.X.(*ssa.Global); ok {
+			return "var " + g.Name()
+		}
+		if fa, ok := x.X.(*ssa.FieldAddr); ok {
+			return "field " + su.FieldOwner(fa).Obj().Name() + "." + su.FieldName(fa)
+		}
+	case *ssa.FieldAddr:
+		if o := su.FieldOwner(x); o != nil {
+			return "field " + o.Obj().Name() + "." + su.FieldName(x)
+		}
+	case *ssa.Global:
+		return "var " + x.Name()
+	case *ssa.TypeAssert:
+		id, isKey := c.syncMapValue(x.X, depth+1)
+		if id != "" && !isKey {
+			return "values of " + id
+		}
+	case *ssa.Extract:
+		if ta, ok := x.Tuple.(*ssa.TypeAssert); ok && x.Index == 0 {
+			return c.syncMapID(ta, depth+1)
+		}
+	case *ssa.Alloc:
+		// &sync.Map{} stored into an identified map: resolved through the store side below
+	}
+	return ""
+}
+
+// syncMapValue: v is a value (or key) obtained from an identified sync.Map by
+// Load or as a Range callback parameter.
+func (c *e1ctx) syncMapValue(v ssa.Value, depth int) (id string, isKey bool) {
+	if depth > 4 {
+		return "", false
+	}
+	switch x := v.(type) {
+	case *ssa.Extract:
+		if call, ok := x.Tuple.(*ssa.Call); ok && x.Index == 0 && su.CalleeIs(&call.Call, "sync", "Load") {
+			return c.syncMapID(call.Call.Args[0], depth+1), false
+		}
+	case *ssa.Parameter:
+		// parameter of a closure passed to Range
+		fn := x.Parent()
+		par := fn.Parent()
+		if par == nil || len(fn.Params) != 2 {
+			return "", false
+		}
+		for _, ci := range su.Calls(par) {
+			cc := ci.Common()
+			if !su.CalleeIs(cc, "sync", "Range") {
+				continue
+			}
+			if mc, ok := cc.Args[1].(*ssa.MakeClosure); ok && mc.Fn == fn {
+				return c.syncMapID(cc.Args[0], depth+1), x == fn.Params[0]
+			}
+		}
+	}
+	return "", false
+}
+
+// ruleArgConst: a panic reached only when `param != k` (k constant) in a
+// function that every caller in the repository calls with the constant k.
+func (c *e1ctx) ruleArgConst(s *e1.Site) (string, bool) {
+	fn := s.Fn
+	for _, b := range fn.Blocks {
+		iff, ok := b.Instrs[len(b.Instrs)-1].(*ssa.If)
+		if !ok {
+			continue
+		}
+		bo, ok := iff.Cond.(*ssa.BinOp)
+		if !ok || bo.Op != token.NEQ {
+			continue
+		}
+		prm, ok := bo.X.(*ssa.Parameter)
+		k, ok2 := su.ConstInt(bo.Y)
+		if !ok || !ok2 {
+			continue
+		}
+		if !(len(b.Succs[0].Preds) == 1 && b.Succs[0].Dominates(s.Instr.Block())) {
+			continue
+		}
+		idx := -1
+		for i, q := range fn.Params {
+			if q == prm {
+				idx = i
+			}
+		}
+		n := 0
+		for _, caller := range c.p.Repo {
+			for _, ci := range su.Calls(caller) {
+				if ci.Common().StaticCallee() != fn {
+					continue
+				}
+				n++
+				if v, isK := su.ConstInt(ci.Common().Args[idx]); !isK || v != k {
+					return "", false
+				}
+			}
+		}
+		if n > 0 && !c.gAddrTaken(fn) {
+			return fmt.Sprintf("R-argconst: panics only when parameter %s != %d; all %d callers pass the constant %d", prm.Name(), k, n, k), true
+		}
+	}
+	return "", false
+}
+
+func (c *e1ctx) gAddrTaken(fn *ssa.Function) bool {
+	for _, f := range c.p.Repo {
+		for _, b := range f.Blocks {
+			for _, ins := range b.Instrs {
+				var ops []*ssa.Value
+				for _, op := range ins.Operands(ops) {
+					if op != nil && *op == ssa.Value(fn) {
+						if ci, ok := ins.(ssa.CallInstruction); ok && ci.Common().Value == ssa.Value(fn) {
+							continue
+						}
+						return true
+					}
+				}
+			}
+		}
+	}
+	return false
 }
